@@ -279,6 +279,10 @@ func verifyServerExtensions(copts *compressionOptions, h http.Header) (*compress
 	_copts := *copts
 	copts = &_copts
 
+	// The server may keep its compression context across messages unless its
+	// response contains server_no_context_takeover, whatever we offered.
+	copts.serverNoContextTakeover = false
+
 	if deflateParamsDuplicated(ext.params) {
 		return nil, fmt.Errorf("duplicated permessage-deflate parameter from server: %+v", ext.params)
 	}
